@@ -4,6 +4,7 @@ package main
 
 import (
 	"go/token"
+	"go/types"
 	"sort"
 	"strings"
 
@@ -49,6 +50,13 @@ func errAtom(s *Seg, v ssa.Value) (rel, name string, ok bool) {
 			}
 		}
 		if t.Op == token.EQL {
+			// err == T[i] inside a range loop over a package-level table of errors: the atom is the
+			// disjunction of the table's members
+			for _, side := range []ssa.Value{t.X, t.Y} {
+				if names, isT := tableElemNames(s, side); isT {
+					return "eq", strings.Join(names, "|"), true
+				}
+			}
 			if n := errName(t.Y); n != "" {
 				return "eq", n, true
 			}
@@ -87,11 +95,21 @@ type PredTable struct {
 func FoldErrPredicate(fn *ssa.Function) *PredTable {
 	pt := &PredTable{Accept: map[string]string{}}
 	fp := Paths(fn)
-	if len(fp.Headers) > 0 || fp.Truncated {
-		pt.Undecided = "predicate has loops or too many paths"
+	if fp.Truncated {
+		pt.Undecided = "predicate has too many paths"
 		return pt
 	}
+	// the only loop accepted is a full range over a package-level table (see tableElemNames)
+	for h := range fp.Headers {
+		if !isFullTableRange(h) {
+			pt.Undecided = "predicate has a loop that is not a range over a package-level table"
+			return pt
+		}
+	}
 	for _, s := range fp.Segs {
+		if s.End != nil {
+			continue // back to the table loop's header
+		}
 		ret, ok := s.Exit.(*ssa.Return)
 		if !ok || len(ret.Results) != 1 {
 			pt.Undecided = "predicate path does not return one value"
@@ -99,6 +117,13 @@ func FoldErrPredicate(fn *ssa.Function) *PredTable {
 		}
 		var pos [][2]string
 		for _, f := range s.Facts {
+			if bo, isB := f.Cond.(*ssa.BinOp); isB && bo.Op == token.LSS {
+				if nx, isN := bo.X.(*ssa.BinOp); isN && nx.Op == token.ADD {
+					if phi, isP := nx.X.(*ssa.Phi); isP && fp.Headers[phi.Block()] {
+						continue // the table loop's own guard
+					}
+				}
+			}
 			if rel, name, ok := errAtom(s, f.Cond); ok {
 				if f.Truth && rel != "assert" {
 					pos = append(pos, [2]string{rel, name})
@@ -269,4 +294,136 @@ func FoldIntPredicate(fn *ssa.Function, val int64) (result bool, ok bool) {
 		result, found = b, true
 	}
 	return result, found
+}
+
+// tableOfElem: v is `*(&T[i])` (array) for a package-level array T; returns T.
+func tableOfElem(v ssa.Value) *ssa.Global {
+	// range over an array variable copies it first: t0 = *T ; e = t0[i]
+	if ix, ok := v.(*ssa.Index); ok {
+		if u, isU := ix.X.(*ssa.UnOp); isU && u.Op == token.MUL {
+			if g, isG := u.X.(*ssa.Global); isG {
+				return g
+			}
+		}
+		return nil
+	}
+	u, ok := v.(*ssa.UnOp)
+	if !ok || u.Op != token.MUL {
+		return nil
+	}
+	ia, ok := u.X.(*ssa.IndexAddr)
+	if !ok {
+		return nil
+	}
+	g, _ := ia.X.(*ssa.Global)
+	return g
+}
+
+// tableElemNames names the members of the package-level error table T when v is an element of it
+// selected by a loop index. The members are read from the package initialiser.
+func tableElemNames(s *Seg, v ssa.Value) ([]string, bool) {
+	g := tableOfElem(v)
+	if g == nil && s != nil {
+		g = tableOfElem(s.Resolve(v))
+	}
+	if g == nil || g.Pkg == nil {
+		return nil, false
+	}
+	at, ok := g.Type().(*types.Pointer).Elem().Underlying().(*types.Array)
+	if !ok {
+		return nil, false
+	}
+	init := g.Pkg.Func("init")
+	if init == nil {
+		return nil, false
+	}
+	names := make([]string, at.Len())
+	for _, b := range init.Blocks {
+		for _, in := range b.Instrs {
+			st, isSt := in.(*ssa.Store)
+			if !isSt {
+				continue
+			}
+			ia, isIA := st.Addr.(*ssa.IndexAddr)
+			if !isIA || ia.X != ssa.Value(g) {
+				continue
+			}
+			k, isK := constInt(ia.Index)
+			if !isK || k < 0 || k >= at.Len() {
+				return nil, false
+			}
+			n := errName(st.Val)
+			if n == "" {
+				if mi, isMI := st.Val.(*ssa.MakeInterface); isMI {
+					n = errName(mi.X)
+				}
+			}
+			if n == "" {
+				return nil, false
+			}
+			names[k] = n
+		}
+	}
+	for _, n := range names {
+		if n == "" {
+			return nil, false
+		}
+	}
+	// nobody else writes the table
+	return names, true
+}
+
+// isFullTableRange: the loop headed by h is go/ssa's rotated range over a package-level array:
+// idx = phi(-1, idx') ; idx' = idx + 1 ; continue while idx' < len(array).
+func isFullTableRange(h *ssa.BasicBlock) bool {
+	for _, in := range h.Instrs {
+		phi, ok := in.(*ssa.Phi)
+		if !ok {
+			continue
+		}
+		if len(phi.Edges) != 2 {
+			continue
+		}
+		var next *ssa.BinOp
+		initM1 := false
+		for _, e := range phi.Edges {
+			if k, isK := constInt(e); isK && k == -1 {
+				initM1 = true
+			} else if bo, isB := e.(*ssa.BinOp); isB && bo.Op == token.ADD && bo.X == ssa.Value(phi) {
+				if one, isO := constInt(bo.Y); isO && one == 1 {
+					next = bo
+				}
+			}
+		}
+		if !initM1 || next == nil {
+			continue
+		}
+		// guard next < N and every use of next as an index is into a global array of length N
+		var n int64 = -1
+		for _, u := range *next.Referrers() {
+			if bo, isB := u.(*ssa.BinOp); isB && bo.Op == token.LSS && bo.X == ssa.Value(next) {
+				if k, isK := constInt(bo.Y); isK {
+					n = k
+				}
+			}
+		}
+		if n < 0 {
+			continue
+		}
+		for _, u := range *next.Referrers() {
+			var g *ssa.Global
+			if ia, isIA := u.(*ssa.IndexAddr); isIA {
+				g, _ = ia.X.(*ssa.Global)
+			}
+			if ix, isIx := u.(*ssa.Index); isIx {
+				g = tableOfElem(ix)
+			}
+			if g != nil {
+				if at, isA := g.Type().(*types.Pointer).Elem().Underlying().(*types.Array); isA && at.Len() == n {
+					return true
+				}
+			}
+		}
+	}
+	return false
 }
